@@ -558,14 +558,16 @@ Theorem p_pg_ident_bare : forall column s k,
     (t = PIdent s \/ exists cl, t = PKeyword s cl /\ cl <> 2 /\ cl <> 3 /\ (column = true -> cl <> 4)).
 Proof.
   intros column s k Hn Hlow Hlen Hk. unfold pg_needs_quoting in Hn.
-  repeat (apply orb_false_iff in Hn as [Hn ?]). apply negb_false_iff in Hn, H.
-  apply str_eqb_eq in H. rewrite H in *.
-  destruct s as [|c r]; [discriminate|]. apply andb_true_iff in Hn as [Hdec Hal].
-  apply negb_true_iff in Hdec. apply pg_isalnum_chars in Hal. inversion Hal; subst.
+  apply orb_false_iff in Hn as [Hn Hle]. apply orb_false_iff in Hn as [Hn Hcol].
+  apply orb_false_iff in Hn as [Hn Hc3]. apply orb_false_iff in Hn as [Hal Hc2].
+  apply negb_false_iff in Hal, Hle. apply str_eqb_eq in Hle. rewrite Hle in *.
+  destruct s as [|c r]; [discriminate|]. apply andb_true_iff in Hal as [Hdec Hal].
+  apply negb_true_iff in Hdec. apply pg_isalnum_chars in Hal.
+  pose proof (Forall_inv Hal) as Hch. pose proof (Forall_inv_tail Hal) as Hrt.
   assert (Hlow2 : map ascii_lower (c :: r) = c :: r) by now apply lower_fix_ascii.
-  destruct (pg_name_char_cont c H5) as [Hcont [N39 [N34 [N38 N0]]]].
+  destruct (pg_name_char_cont c Hch) as [Hcont [N39 [N34 [N38 N0]]]].
   assert (Hstart : pg_ident_start c = true).
-  { destruct H5 as [->|Ha]; [reflexivity|]. unfold pg_ident_start. unfold py_alnum, py_dec in *.
+  { destruct Hch as [->|Ha]; [reflexivity|]. unfold pg_ident_start. unfold py_alnum, py_dec in *.
     destruct (is_ascii c) eqn:Ea.
     - unfold is_alnum in Ha. rewrite Hdec in Ha. rewrite orb_false_r in Ha. now rewrite Ha.
     - unfold is_ascii in Ea. apply N.ltb_ge in Ea.
@@ -576,7 +578,7 @@ Proof.
       destruct (pg_boundary_cons d k Hk) as (Bc & B39 & B34 & B38).
       cbn [prefix]. rewrite (N.eqb_sym 39), (N.eqb_sym 38).
       rewrite B39, B38. auto.
-    - inversion H6; subst. destruct (pg_name_char_cont x H9) as [_ [A [_ [B _]]]].
+    - pose proof (Forall_inv Hrt) as Hx. destruct (pg_name_char_cont x Hx) as [_ [A [_ [B _]]]].
       cbn [app prefix]. rewrite (eqb_neq_false 39 x), (eqb_neq_false 38 x) by auto. auto. }
   destruct Hp1 as [P1 [P2 P3]].
   cbn [app]. unfold pg_lex1.
@@ -585,8 +587,10 @@ Proof.
   rewrite pg_span_ident_run by auto. rewrite Hlow2.
   destruct (pg_kw_class (c :: r) g_pg_keywords) as [cl|] eqn:Ecl.
   - eexists; split; [reflexivity|]. right. exists cl. split; auto.
-    repeat split; intro; subst; try discriminate.
-    match goal with Hx : (column && _) = false |- _ => rewrite H3 in Hx; discriminate end.
+    repeat split.
+    + intro; subst cl. cbn in Hc2. discriminate.
+    + intro; subst cl. cbn in Hc3. discriminate.
+    + intros -> ->. cbn in Hcol. discriminate.
   - replace (Nat.ltb 63 (utf8_len_str (c :: r))) with false by (symmetry; apply Nat.ltb_ge; lia).
     eexists; split; [reflexivity|]. auto.
 Qed.
